@@ -258,6 +258,13 @@ def check_bytes(model, data):
             seen.add(k)
             bad.append((sig, msg))
 
+    # a batch that carries on: a damaged copy of the file (cut inside a pass, one marker byte changed) is read first - how the reader
+    # deals with it is not judged here - and must leave nothing behind for the read that follows
+    for dmg in (data[:(2 * len(data)) // 3], data[:len(data) // 2] + b'\xff' + data[len(data) // 2 + 1:]):
+        try:
+            ReadBIT.create_bit_frame_array_from_file(io.BytesIO(dmg))
+        except Exception:  # noqa
+            pass
     fobj = io.BytesIO(data)
     try:
         # the way the tools use a file object: asked "is this a BIT file?" first, then read through the same object
@@ -269,7 +276,15 @@ def check_bytes(model, data):
         add({'kind': 'bit_read_raises', 'exception': type(err).__name__}, 'reading raised %s: %s' % (type(err).__name__, err))
         return bad, ('raise', type(err).__name__)
     try:
+        # what was handed out is the caller's: its list of channel names shortened, the file read again
+        for b in result[:1]:
+            if isinstance(getattr(b, 'channel_names', None), list) and b.channel_names:
+                names_before = list(b.channel_names)
+                b.channel_names.pop()
         again = _summary(ReadBIT.create_bit_frame_array_from_file(fobj))
+        for b in result[:1]:
+            if isinstance(getattr(b, 'channel_names', None), list):
+                b.channel_names[:] = names_before
         fresh = _summary(ReadBIT.create_bit_frame_array_from_file(io.BytesIO(data)))
     except Exception as err:  # noqa
         add({'kind': 'bit_read_raises', 'exception': type(err).__name__, 'read': 'second'},
